@@ -9,7 +9,7 @@ Inductive skind := StringBuf | FileBuf.
 
 Record istream := mkIstream {
   is_kind : skind;
-  is_bytes : bytes;
+  is_content : bytes;
   is_fail : bool;
   is_pos : N
 }.
@@ -24,18 +24,18 @@ Definition of_signed64 (z : Z) : N := Z.to_N (z mod 2 ^ 64)%Z.
    position beyond the end, sets failbit *)
 Definition seekg (s : istream) (p : Z) : istream :=
   if is_fail s then s
-  else if (p <? 0)%Z then mkIstream (is_kind s) (is_bytes s) true (is_pos s)
+  else if (p <? 0)%Z then mkIstream (is_kind s) (is_content s) true (is_pos s)
   else
     let p := Z.to_N p in
     match is_kind s with
-    | StringBuf => if lenN (is_bytes s) <? p
-                   then mkIstream (is_kind s) (is_bytes s) true (is_pos s)
-                   else mkIstream (is_kind s) (is_bytes s) false p
-    | FileBuf => mkIstream (is_kind s) (is_bytes s) false p
+    | StringBuf => if lenN (is_content s) <? p
+                   then mkIstream (is_kind s) (is_content s) true (is_pos s)
+                   else mkIstream (is_kind s) (is_content s) false p
+    | FileBuf => mkIstream (is_kind s) (is_content s) false p
     end.
 
 Definition seekg_end (s : istream) : istream :=
-  if is_fail s then s else mkIstream (is_kind s) (is_bytes s) false (lenN (is_bytes s)).
+  if is_fail s then s else mkIstream (is_kind s) (is_content s) false (lenN (is_content s)).
 
 (* tellg as size_t( stream.tellg() ) *)
 Definition tellg_size (s : istream) : N :=
@@ -46,10 +46,10 @@ Definition tellg_size (s : istream) : N :=
 Definition read (s : istream) (n : N) : istream * bytes :=
   if is_fail s then (s, [])
   else
-    let got := sliceN (is_bytes s) (is_pos s) n in
+    let got := sliceN (is_content s) (is_pos s) n in
     if lenN got <? n
-    then (mkIstream (is_kind s) (is_bytes s) true (is_pos s + lenN got), got)
-    else (mkIstream (is_kind s) (is_bytes s) false (is_pos s + n), got).
+    then (mkIstream (is_kind s) (is_content s) true (is_pos s + lenN got), got)
+    else (mkIstream (is_kind s) (is_content s) false (is_pos s + n), got).
 
 (* ---- output ---- *)
 Record ostream := mkOstream {
